@@ -4,7 +4,7 @@
 EXTENDS Emitter, Json
 CONSTANTS Depth, Decorate
 VARIABLES val, done
-Base == IF Depth = 1 THEN D1(0) ELSE IF Depth = 2 THEN D2(0) ELSE D3(0)
+Base == (IF Depth = 1 THEN D1(0) ELSE IF Depth = 2 THEN D2(0) ELSE D3(0)) \cup KeyNest(0) \cup DeepSet(0)
 (* decorated variants of a value: one wrapper at the root or around one child *)
 Decor(v) ==
   (IF v.t \in {"Seq", "Tup"} THEN {Val("FlowSeq", "", <<v>>)} ELSE {})
